@@ -2,4 +2,5 @@
 //! `conv` only builds values of the crate's public types for comparison.
 pub mod conv;
 pub mod sml;
+pub mod tiling;
 pub mod transport;
